@@ -103,4 +103,39 @@ Theorem C03_format_idempotent :
   format_model alnum cfg out = inl out.
 Proof. exact format_idempotent_starts. Qed.
 
+(* the end-to-end idempotence theorem with hypotheses DISCHARGED from the first run: the second run ignores nothing (toggle comments are
+   stable under the comment rewriter: C03_second_run_ignores_nothing); the kinds of the re-scan are asked only up to the Individual /
+   Inline flag of comments, the flag itself follows from the breaks the first run kept (residual: no inline comment directly after a
+   `//` comment - the lone-CR case F28, where the clause is false); the spaces hypothesis is needed only where the search reads them:
+   the spaces of a token after a `//` comment (MustBreak) are never read *)
+From PasfmtVerif Require Import Model.Format Proofs.FormatProofs Proofs.FormatIdemProofs Proofs.FormatIdemKindsProofs Proofs.FormatIdemSpacesProofs Proofs.WrapSpacesProofs.
+Theorem C03_format_idempotent_min_checked :
+  forall (alnum : bytes -> bool) (cfg : fconfig) (s out : bytes),
+  format_model alnum cfg s = inl out ->
+  (forall segs : list seg, lex_segments s = Some segs -> idem_hypb_min alnum cfg segs = true) ->
+  format_model alnum cfg out = inl out.
+Proof. exact format_idempotent_min_checked. Qed.
+
+Theorem C03_format_idempotent_kinds_checked :
+  forall (alnum : bytes -> bool) (cfg : fconfig) (s out : bytes),
+  format_model alnum cfg s = inl out ->
+  (forall segs : list seg, lex_segments s = Some segs -> idem_hypb_kinds alnum cfg segs = true) ->
+  format_model alnum cfg out = inl out.
+Proof. exact format_idempotent_kinds_checked. Qed.
+
+Theorem C03_format_idempotent_spaces_only_after_breakers :
+  forall (alnum : bytes -> bool) (cfg : fconfig) (s out : bytes),
+  format_model alnum cfg s = inl out ->
+  (forall segs : list seg,
+   lex_segments s = Some segs ->
+   exists segs2 : list seg,
+     lex_segments (fm_out alnum cfg segs) = Some segs2 /\
+     idem_hyp_breakers alnum cfg segs segs2) -> format_model alnum cfg out = inl out.
+Proof. exact format_idempotent_breakers. Qed.
+
+Theorem C03_second_run_ignores_nothing :
+  forall (alnum : bytes -> bool) (cfg : fconfig) (segs segs2 : list seg),
+  idem_hyp6 alnum cfg segs segs2 -> all_false (fm_marks segs2).
+Proof. exact second_run_ignores_nothing. Qed.
+
 
